@@ -283,7 +283,7 @@ def explore(pid, tier, workers=None, limit=None):
     groups = collections.OrderedDict()
     for i, v in new:
         groups.setdefault((v['site'], v['kind']), []).append((i, v))
-    rdir = os.path.join(env.VERIF, 'replays', pid)
+    rdir = os.path.join(os.environ.get('VERIF_REPLAY_DIR') or os.path.join(env.VERIF, 'replays'), pid)
     confirmed_groups = 0
     for (site, kind), items in groups.items():
         shown = 0
@@ -348,8 +348,9 @@ def explore(pid, tier, workers=None, limit=None):
         'wall_s': round(time.time() - t0, 3),
         'violations': len(groups),
     }
-    os.makedirs(os.path.join(env.VERIF, 'evidence'), exist_ok=True)
-    with open(os.path.join(env.VERIF, 'evidence', f'{pid}.json'), 'w') as f:
+    edir = os.environ.get('VERIF_EVIDENCE_DIR') or os.path.join(env.VERIF, 'evidence')
+    os.makedirs(edir, exist_ok=True)
+    with open(os.path.join(edir, f'{pid}.json'), 'w') as f:
         json.dump(evid, f, indent=1, default=str)
     print(
         f'[{pid} {tier}] cases={len(done)}/{n} states={cov["states"]} transitions={cov["transitions"]} '
